@@ -9,9 +9,10 @@ from .mqspec import MQSpec
 
 
 def c06_profile(tier):
-    return Profile('c06', shapes=('chain', 'tee', 'tee_rejoin', 'join', 'balance'), faults=(), required='maybe', skip=True,
-                   skip_on_rejoin=False, src_skip=False, lat_max_ms=40, knob_variation=False, max_proc_ms=120,
-                   max_relays=2, staggered_start=True, endless=True, low_latency=True, empty=False)
+    return Profile('c06', shapes=('chain', 'tee', 'tee_rejoin', 'join', 'balance', 'eph_rejoin'), faults=(), required='maybe',
+                   skip=True, skip_on_rejoin=False, src_skip=False, lat_max_ms=40, knob_variation=False, max_proc_ms=120,
+                   max_relays=2, staggered_start=True, endless=True, low_latency=True, empty=False,
+                   ephemeral=1, eph_kinds=(1, 2))      # slow / stalled '?' and '??' side listeners must not matter
 
 
 class Spec(MQSpec):
